@@ -50,9 +50,9 @@ impl Path {
             Path::WRoot { cb } => format!("root.w.{:?}", cb),
         }
     }
-    fn parent_kind(self) -> (Kind, u8) {
+    fn parent_kind(self) -> (Kind, u32) {
         match self {
-            Path::Obj { kind, n, .. } => (kind, n),
+            Path::Obj { kind, n, .. } => (kind, n as u32),
             Path::WObj { kind, .. } => (kind, 0),
             Path::Stash => (Kind::Set, 0),
             _ => (Kind::Node, 0),
@@ -126,7 +126,7 @@ fn cb(body: Vec<MOp>) -> Op {
 fn cbr(body: Vec<MOp>) -> Op {
     Op::Cb { a: 0, kind: CbKind::MutateRoot, body }
 }
-fn alloc(id: Id, kind: Kind, n: u8, init: Vec<Option<Id>>) -> MOp {
+fn alloc(id: Id, kind: Kind, n: u32, init: Vec<Option<Id>>) -> MOp {
     MOp::Alloc { id, kind, n, init }
 }
 fn sets(p: Ref, slot: u8, c: Option<Id>) -> MOp {
